@@ -39,6 +39,9 @@ func (c16Noop) DialContext(context.Context, string, string) (netproxy.Conn, erro
 	return nil, errors.New("not implemented")
 }
 
+// read from the real code in TestVerifC16 (VParams); the model gets the same values as parameters
+var c16Quiesce, c16TTL, c16Cleanup = 20 * time.Second, 15 * time.Minute, 5 * time.Minute
+
 var c16Typs = []string{"t4", "t6", "T4", "T6", "d4", "d6", "u4", "u6", "x4", "x6", "d4", "d6", "u4", "u6", "y4", "y6", "z4", "z6", "a4", "a6", "b4", "b6"}
 
 func c16NT(tok string) *dialer.NetworkType {
@@ -679,11 +682,11 @@ func (s *c16Scn) noise(n *c16Node, tok string, src int) {
 		s.send()
 		if s.r.Bool() {
 			s.failBy(src, n, tok) // inside the quiesce window
-			s.tick(20*time.Second - time.Duration(s.r.Intn(2)))
+			s.tick(c16Quiesce - time.Duration(s.r.Intn(2)))
 			s.failBy(src, n, tok) // 1 ns before the end / exactly at the end
 			s.tick(time.Duration(s.r.Intn(2)))
 		} else {
-			s.tick(20*time.Second + time.Duration(s.r.Intn(3)))
+			s.tick(c16Quiesce + time.Duration(s.r.Intn(3)))
 		}
 	case 6: // the other failure source on the same slot (separate counter)
 		if src == 2 {
@@ -785,7 +788,7 @@ func (s *c16Scn) genEscalation() {
 		}
 		switch s.r.Intn(12) {
 		case 0:
-			s.tick(15*time.Minute + time.Duration(s.r.Intn(3)-1)) // TTL boundary
+			s.tick(c16TTL + time.Duration(s.r.Intn(3)-1)) // TTL boundary
 		case 1:
 			s.resetGlobal()
 		case 2:
@@ -794,7 +797,7 @@ func (s *c16Scn) genEscalation() {
 		case 3:
 			s.forced(m, s.randTok()) // forced deaths are not counted for the address
 		case 4:
-			s.tick(5 * time.Minute)
+			s.tick(c16Cleanup)
 		}
 		if s.r.Chance(0.2) {
 			for j := 0; j < 12 && m.d.MustGetAlive(c16NT(tok)); j++ {
@@ -1011,7 +1014,7 @@ func (s *c16Scn) genReload() {
 		s.failBy(s.r.Intn(3), n, s.randTok())
 	}
 	if s.r.Bool() {
-		s.tick(20 * time.Second)
+		s.tick(c16Quiesce)
 	}
 	s.stats.Inc("gen.reload")
 }
@@ -1091,6 +1094,8 @@ func TestVerifC16(t *testing.T) {
 			c16Bool(nt.L4Proto == consts.L4ProtoStr_UDP && nt.EffectiveUdpHealthDomain() == dialer.UdpHealthDomainData)))
 	}
 	st.Emit("consts", dialer.VConsts())
+	c16Quiesce, c16TTL, c16Cleanup = dialer.VParams()
+	st.Emit(fmt.Sprintf("params %d %d %d", int64(c16Quiesce), int64(c16TTL), int64(c16Cleanup)), "ok")
 	nScn, maxEv := 250, 90
 	if dialer.VThorough() {
 		nScn, maxEv = 4000, 110
